@@ -3,10 +3,12 @@ package harness
 import (
 	"encoding/json"
 	"fmt"
+	"sort"
 	"strings"
 	"time"
 
 	"github.com/anishathalye/porcupine"
+	log "github.com/go-spring/log"
 	"pgregory.net/rapid"
 )
 
@@ -32,6 +34,26 @@ func (c06) Gen(rt *rapid.T, thorough bool) any {
 	s.Level = ""
 	s.Refs = []RefSpec{{Ref: "rec0"}}
 	s.LLayout = ""
+	if rapid.IntRange(0, 7).Draw(rt, "rolling_async") == 0 {
+		// (C) the async mode of the RollingFile logger is the same queue behind another front
+		s.Kind, s.RAsync, s.Via, s.Restart, s.RotMs = "RollingFile", true, "direct", false, 3600000
+		s.Separate = rapid.Bool().Draw(rt, "separate6")
+		if rapid.Bool().Draw(rt, "starve6") {
+			s.Knobs.Starve = []string{"go@plugin_logger"}
+		}
+		genProducers(rt, s, 3, 30, 2)
+		for p := range s.Producers {
+			for i := range s.Producers[p] {
+				op := &s.Producers[p][i]
+				if op.Raw {
+					op.Size = rapid.SampledFrom([]int{3, 3, 200, 40000}).Draw(rt, "raw_size6")
+				} else {
+					op.Lvl = rapid.SampledFrom([]string{"INFO", "INFO", "ERROR"}).Draw(rt, "lvl6r")
+				}
+			}
+		}
+		return s
+	}
 	if rapid.Bool().Draw(rt, "sequential") {
 		s.Gate = 1
 		scaleOdds := 80
@@ -91,7 +113,9 @@ func (c06) Gen(rt *rapid.T, thorough bool) any {
 
 func (c c06) Run(x *Exec, scn any) {
 	s := scn.(*AsyncScn)
-	if len(s.Seq) > 0 {
+	if s.Kind == "RollingFile" {
+		c.runRoll(x, s)
+	} else if len(s.Seq) > 0 {
 		c.runSeq(x, s)
 	} else {
 		c.runConc(x, s)
@@ -286,6 +310,99 @@ func tail(s []string, n int) []string {
 }
 
 // ---- concurrent workload
+
+// runRoll: the async RollingFile logger. Fewer items than the buffer holds, so nothing may be
+// dropped; in every file the items of one producer appear in the order it submitted them.
+func (c06) runRoll(x *Exec, s *AsyncScn) {
+	o := x.Out
+	x.FS.MkdirAll("/logs")
+	l := &log.RollingFileLogger{LoggerBase: log.LoggerBase{Name: "rlog", Level: log.LevelRange{MinLevel: log.NoneLevel, MaxLevel: log.MaxLevel}},
+		FileDir: "/logs", FileName: "app.log", Separate: s.Separate, Rotation: log.TimeRotation{Interval: time.Hour}, MaxAge: 168,
+		AsyncWrite: true, BufferSize: s.BufferSize, BufferFullPolicy: policyOf(s.Policy)}
+	var startErr error
+	if !x.do("start", func() { startErr = l.Start() }) || startErr != nil {
+		o.violate("start-error", "C06/roll/start-error", "valid async RollingFile logger did not start: %v %v", startErr, x.clientsStuck())
+		return
+	}
+	sys := &asyncSys{s: s, logger: l, capacity: s.BufferSize}
+	sys.logRange, _ = modelRange("")
+	subs := make([][]*Sub, len(s.Producers))
+	sys.spawnProducers(x, subs)
+	res := x.Sim.Run(x.harnessTasksDone)
+	for _, t := range x.Sim.Tasks() {
+		if strings.HasPrefix(t.Name, "producer") && t.State != 5 {
+			o.violate("producer-stuck", "C06/roll/log-call-did-not-return/"+s.Policy, "producer %s blocked at %s with a buffer that cannot be full: %v", t.Name, t.Site, res.Blocked)
+			return
+		}
+	}
+	if !x.do("stopper", l.Stop) {
+		o.violate("stop-stuck", "C06/roll/stop-did-not-return", "Stop did not return: %v", x.clientsStuck())
+		return
+	}
+	judgeDied(x, "C06")
+	x.Sim.Close()
+	o.Reached = x.Sim.Preemptions() > 0
+	files := x.FS.AllFiles()
+	for _, name := range []string{"app.log", "app.log.wf"} {
+		if name == "app.log.wf" && !s.Separate {
+			continue
+		}
+		var data []byte
+		for p, d := range files {
+			if rest, ok := strings.CutPrefix(p, "/logs/"+name+"."); ok && len(rest) == 14 && strings.Trim(rest, "0123456789") == "" {
+				data = d
+			}
+		}
+		lastSeq := map[int]int{}
+		seen := map[string]int{}
+		for _, line := range strings.Split(string(data), "\n") {
+			id := ""
+			if strings.HasPrefix(line, "raw:") {
+				if i := strings.Index(line[4:], ":"); i >= 0 {
+					id = line[4 : 4+i]
+				}
+			} else if m := idInLine.FindStringSubmatch(line); m != nil {
+				id = m[1]
+			}
+			if id == "" {
+				continue
+			}
+			var task, seq int
+			fmt.Sscanf(id, "t%ds%d", &task, &seq)
+			seen[id]++
+			if prev, ok := lastSeq[task]; ok && seq < prev {
+				o.violate("producer-order", "C06/roll/per-producer-order-violated/"+name, "in %s item %s of producer %d comes after its later item s%d (events and raw writes share one queue)", name, id, task, prev)
+				return
+			}
+			lastSeq[task] = seq
+		}
+		for _, ps := range subs {
+			for _, sb := range ps {
+				if !sb.Returned {
+					continue
+				}
+				want := sb.Raw || !s.Separate || (name == "app.log") == (sb.Code < levelCodes["WARN"])
+				if n := seen[sb.ID]; (want && n != 1) || (!want && n != 0) {
+					o.violate("roll-conservation", "C06/roll/item-count-in-file/"+name, "%s (raw=%v level=%s) appears %d times in %s, expected %v (nothing can be dropped: %d items, capacity %d); files: %s", sb.ID, sb.Raw, sb.Level, n, name, want, totalOps(s), s.BufferSize, fileSummary(files))
+					return
+				}
+			}
+		}
+	}
+}
+
+func fileSummary(files map[string][]byte) string {
+	var names []string
+	for p := range files {
+		names = append(names, p)
+	}
+	sort.Strings(names)
+	var b strings.Builder
+	for _, p := range names {
+		fmt.Fprintf(&b, "%s=%q ", p, short(string(files[p]), 300))
+	}
+	return b.String()
+}
 
 type qIn struct {
 	Take bool
